@@ -16,10 +16,24 @@ import (
 	"gosx/sx"
 )
 
-const (
-	verifDir = "/verif"
-	repoDir  = "/repo"
-)
+const verifDir = "/verif"
+
+// repoDir is /repo; VERIF_REPO overrides it only for trials of seeded changes
+// on a scratch copy (never set by the registered commands).
+// outDir receives evidence/ and replays/ (VERIF_OUT: seeded-change trials only).
+var outDir = func() string {
+	if d := os.Getenv("VERIF_OUT"); d != "" {
+		return d
+	}
+	return verifDir
+}()
+
+var repoDir = func() string {
+	if d := os.Getenv("VERIF_REPO"); d != "" {
+		return d
+	}
+	return "/repo"
+}()
 
 type knownFinding struct {
 	Property string `json:"property"`
@@ -104,7 +118,7 @@ func runReplays(eng *sx.Engine, pkgPath string, files []string, race bool) (map[
 	if strings.HasSuffix(pkgPath, "/grammar") {
 		sub, pkgName, hdir = "grammar", "grammar", filepath.Join(verifDir, "harness", "grammar")
 	}
-	work, err := os.MkdirTemp(filepath.Join(verifDir, "replays"), "build")
+	work, err := os.MkdirTemp(filepath.Join(outDir, "replays"), "build")
 	if err != nil {
 		return nil, err
 	}
@@ -130,6 +144,13 @@ func runReplays(eng *sx.Engine, pkgPath string, files []string, race bool) (map[
 		}
 		overlay[filepath.Join(repoDir, sub, "zz_verif_"+name)] = p
 		return nil
+	}
+	for name, b := range eng.GenFiles[sub] {
+		p := filepath.Join(work, name)
+		if err := os.WriteFile(p, b, 0o644); err != nil {
+			return nil, err
+		}
+		overlay[filepath.Join(repoDir, sub, "zz_verif_"+strings.TrimSuffix(name, ".go")+"_test.go")] = p
 	}
 	var reg strings.Builder
 	reg.WriteString("\nvar verifHarnesses = map[string]func(){\n")
@@ -311,10 +332,10 @@ func cmdRun(args []string) int {
 		return 2
 	}
 	known := loadKnown()
-	os.MkdirAll(filepath.Join(verifDir, "replays", prop), 0o755)
-	os.MkdirAll(filepath.Join(verifDir, "evidence"), 0o755)
+	os.MkdirAll(filepath.Join(outDir, "replays", prop), 0o755)
+	os.MkdirAll(filepath.Join(outDir, "evidence"), 0o755)
 	// clear old replays of this property
-	old, _ := filepath.Glob(filepath.Join(verifDir, "replays", prop, "*.json"))
+	old, _ := filepath.Glob(filepath.Join(outDir, "replays", prop, "*.json"))
 	for _, f := range old {
 		os.Remove(f)
 	}
@@ -397,7 +418,7 @@ func cmdRun(args []string) int {
 			}
 			perLabel[v.Label]++
 			rf := mkReplay(h, v, tier, seed, "fail", spec.ReplayRepeat)
-			p := filepath.Join(verifDir, "replays", prop, fmt.Sprintf("%s-%03d.json", shortName(h), k))
+			p := filepath.Join(outDir, "replays", prop, fmt.Sprintf("%s-%03d.json", shortName(h), k))
 			b, _ := json.MarshalIndent(rf, "", " ")
 			os.WriteFile(p, b, 0o644)
 			replaysByPkg[pkgOf(h)] = append(replaysByPkg[pkgOf(h)], p)
@@ -405,7 +426,7 @@ func cmdRun(args []string) int {
 		}
 		for k, a := range hr.Audits {
 			rf := mkReplay(h, a, tier, seed, "ok", 1)
-			p := filepath.Join(verifDir, "replays", prop, fmt.Sprintf("audit-%s-%03d.json", shortName(h), k))
+			p := filepath.Join(outDir, "replays", prop, fmt.Sprintf("audit-%s-%03d.json", shortName(h), k))
 			b, _ := json.MarshalIndent(rf, "", " ")
 			os.WriteFile(p, b, 0o644)
 			replaysByPkg[pkgOf(h)] = append(replaysByPkg[pkgOf(h)], p)
@@ -529,7 +550,7 @@ func cmdRun(args []string) int {
 		Violations: confirmed,
 	}
 	b, _ := json.MarshalIndent(ev, "", " ")
-	os.WriteFile(filepath.Join(verifDir, "evidence", prop+".json"), b, 0o644)
+	os.WriteFile(filepath.Join(outDir, "evidence", prop+".json"), b, 0o644)
 
 	for _, l := range knownLines {
 		fmt.Println(l)
@@ -587,7 +608,7 @@ func cmdReplay(args []string) int {
 		fmt.Fprintln(os.Stderr, err)
 		return 2
 	}
-	os.MkdirAll(filepath.Join(verifDir, "replays"), 0o755)
+	os.MkdirAll(filepath.Join(outDir, "replays"), 0o755)
 	res, err := runReplays(eng, rf.Package, []string{args[0]}, false)
 	if err != nil {
 		fmt.Fprintln(os.Stderr, err)
